@@ -23,10 +23,12 @@ KEYERROR_STATE = {"DB", "WDB", "CACHE", "FCACHE"}
 
 
 class ExcFlow:
-    def __init__(self, prog, resolver):
+    def __init__(self, prog, resolver, complete_db=False):
         self.P = prog
         self.R = resolver
+        self.complete_db = complete_db
         self.esc = {q: set() for q in prog.funcs}
+        self.noret = set()
         self._paths = {}
         self.rounds = 0
         self._computed = False
@@ -59,7 +61,8 @@ class ExcFlow:
             txt = ast.unparse(node.value)
             if k in KEYERROR_STATE or k == "MAPPARAM":
                 kind = "dbdel" if isinstance(node.ctx, ast.Del) else "dbread"
-                out.append(("KeyError", (kind, f.qual, node.lineno, txt)))
+                if not (self.complete_db and kind == "dbread"):
+                    out.append(("KeyError", (kind, f.qual, node.lineno, txt)))
             else:
                 t = self.R.type_of(node.value, f)
                 if t == ("c", "sortedset"):
@@ -69,7 +72,12 @@ class ExcFlow:
             return out
         for tg in self.R.resolve_call(node, f, count=False):
             if tg.kind == "def":
-                out.extend(self.esc.get(tg.func.qual, ()))
+                for e, o in self.esc.get(tg.func.qual, ()):
+                    # an exception thrown *into* a context manager at its yield comes
+                    # from the with-body, not from the manager
+                    if o and o[0] == "yield" and tg.func.is_ctxmgr:
+                        continue
+                    out.append((e, o))
             elif tg.kind == "ctor":
                 for nm in ("__new__", "__init__"):
                     g = tg.cls.methods.get(nm)
@@ -93,11 +101,15 @@ class ExcFlow:
                         out.append(("KeyError", ("cmeth", f.qual, node.lineno, "pop")))
         return out
 
+    def noreturn(self, node, f):
+        tgs = self.R.resolve_call(node, f, count=False)
+        return bool(tgs) and all(t.kind == "def" and t.func.qual in self.noret for t in tgs)
+
     # ------------------------------------------------------------------
     def paths(self, f, unroll=1):
         key = (f.qual, unroll)
         if key not in self._paths:
-            self._paths[key] = Walker(f, self.R, raises=self.raises, unroll=unroll).paths()
+            self._paths[key] = Walker(f, self.R, raises=self.raises, unroll=unroll, noreturn=self.noreturn).paths()
         return self._paths[key]
 
     def compute(self):
@@ -110,11 +122,15 @@ class ExcFlow:
             for q, f in self.P.funcs.items():
                 if f.is_template:
                     continue
-                ps = Walker(f, self.R, raises=self.raises, unroll=1).paths()
+                ps = Walker(f, self.R, raises=self.raises, unroll=1, noreturn=self.noreturn).paths()
                 new = set()
                 for p in ps:
                     if p.exit[0] == "raise":
                         new.add((p.exit[1], p.exit[3]))
+                nr = bool(ps) and all(p.exit[0] == "raise" for p in ps) and not f.is_generator
+                if nr and q not in self.noret:
+                    self.noret.add(q)
+                    changed = True
                 if not new <= self.esc[q]:
                     self.esc[q] |= new
                     changed = True
